@@ -540,3 +540,139 @@ func H09d() {
 		}
 	}
 }
+
+// H09e: units and default along a chain string <- t1 <- t2 <- t3 <- leaf, each level with no
+// statement, a non-empty value or the empty string (which is a value like any other): the nearest
+// statement wins.
+func H09e() {
+	type lvl struct{ units, def int } // 0 absent, 1 value, 2 empty string
+	var l [3]lvl
+	src := `module m { namespace "urn:m"; prefix m; `
+	prev := "string"
+	units, def, hasDef := "", "", false
+	for i := range l {
+		l[i] = lvl{symChoice(3), symChoice(3)}
+		idx := string([]byte{'1' + byte(i)})
+		src += `typedef t` + idx + ` { type ` + prev + `;`
+		switch l[i].units {
+		case 1:
+			src += ` units "u` + idx + `";`
+			units = "u" + idx
+		case 2:
+			src += ` units "";`
+			units = ""
+		}
+		switch l[i].def {
+		case 1:
+			src += ` default "d` + idx + `";`
+			def, hasDef = "d"+idx, true
+		case 2:
+			src += ` default "";`
+			def, hasDef = "", true
+		}
+		src += ` } `
+		prev = "t" + idx
+	}
+	src += `leaf x { type t3; } }`
+	note(src)
+	ms, lerrs := hLoad(src)
+	check(len(lerrs) == 0, "the module parses")
+	errs := ms.Process()
+	check(len(errs) == 0, "the module processes")
+	if len(errs) > 0 {
+		return
+	}
+	reach("resolved")
+	e := ToEntry(ms.Modules["m"]).Dir["x"]
+	check(e != nil && e.Type != nil, "leaf resolved")
+	if e == nil || e.Type == nil {
+		return
+	}
+	check(e.Type.Units == units, "units: nearest definition in the chain wins (the empty string is a value)")
+	check(e.Type.HasDefault == hasDef && e.Type.Default == def, "default: nearest definition in the chain wins (the empty string is a value)")
+	dv := e.DefaultValues()
+	if hasDef {
+		check(len(dv) == 1 && dv[0] == def, "DefaultValues: the type's default")
+	} else {
+		check(len(dv) == 0, "DefaultValues: none")
+	}
+}
+
+// H09two: two references to (possibly) the same name from different scopes of one module: the
+// binding of each is what its own scope chain says, whatever was resolved before it. The
+// submodule s defines typedef a (int16) at its top; container c and grouping g may define
+// typedefs named a or b (int32, int64); one leaf at the top of the module and one leaf inside c,
+// inside g (used in u) or at the top again refer to a symbolic name, in either written order.
+func H09two() {
+	nm := func() byte {
+		b := symByte()
+		assume(symOr(b == 'a', b == 'b'))
+		return b
+	}
+	cPresent, gPresent := symBool(), symBool()
+	cName, gName := nm(), nm()
+	r1, r2 := nm(), nm()
+	site2 := symChoice(3) // 0 in container c, 1 in grouping g, 2 at the top
+	leaf1 := "leaf ref1 { type " + string([]byte{r1}) + "; } "
+	leaf2 := "leaf ref2 { type " + string([]byte{r2}) + "; } "
+	at := func(k int) string {
+		if site2 == k {
+			return leaf2
+		}
+		return ""
+	}
+	body := `container c { ` + h09Typedef(sCont, cPresent, cName) + at(0) + `} ` +
+		`grouping g { ` + h09Typedef(sGrp, gPresent, gName) + at(1) + `} container u { uses g; } ` + at(2)
+	if symBool() {
+		body = leaf1 + body
+	} else {
+		body = body + leaf1
+	}
+	m := `module m { namespace "urn:m"; prefix m; include s; ` + body + `}`
+	s := `submodule s { belongs-to m { prefix m; } typedef a { type int16; } }`
+	note(m)
+	ms, lerrs := hLoad(m, s)
+	check(len(lerrs) == 0, "the modules parse")
+	errs := ms.Process()
+	// reference binder
+	ok1 := r1 == 'a'
+	inner2 := false
+	switch site2 {
+	case 0:
+		inner2 = symAnd(cPresent, cName == r2)
+	case 1:
+		inner2 = symAnd(gPresent, gName == r2)
+	}
+	ok2 := symOr(inner2, r2 == 'a')
+	if len(errs) > 0 {
+		reach("rejected")
+		check(symNot(symAnd(ok1, ok2)), "type references that bind to a typedef are resolved without error")
+		return
+	}
+	reach("resolved")
+	check(symAnd(ok1, ok2), "an unknown type reference is an error")
+	em := ToEntry(ms.Modules["m"])
+	e1 := em.Dir["ref1"]
+	var e2 *Entry
+	switch site2 {
+	case 0:
+		e2 = em.Dir["c"].Dir["ref2"]
+	case 1:
+		e2 = em.Dir["u"].Dir["ref2"]
+	case 2:
+		e2 = em.Dir["ref2"]
+	}
+	check(e1 != nil && e1.Type != nil && e2 != nil && e2.Type != nil, "both leaves resolved")
+	if e1 == nil || e1.Type == nil || e2 == nil || e2.Type == nil {
+		return
+	}
+	check(e1.Type.Kind == Yint16, "the reference at the top denotes the submodule's typedef")
+	want2 := Yint16
+	if inner2 {
+		want2 = h09Kinds[sCont]
+		if site2 == 1 {
+			want2 = h09Kinds[sGrp]
+		}
+	}
+	check(e2.Type.Kind == want2, "a reference denotes the typedef in the nearest enclosing scope of the referencing statement, whatever another reference to the same name resolved to")
+}
